@@ -78,6 +78,26 @@ Theorem c02_use_checked : forall k,
    check_use_enc k = Err (EJose UnsupportedKeyUseError)).
 Proof. exact use_checked. Qed.
 
+(* ---- 1c. the registry the entry points select (algorithms= / registry= / neither / both): with NO registry
+   argument the effective verify_all_recipients is True for EVERY algorithms= value (constructor default and
+   default_registry, both read from gen/Tables.v); with algorithms= it is True whatever registry= is; False can
+   only come from the caller's own registry.  Consequence: without a caller's registry every recipient must
+   yield the CEK. ---- *)
+Theorem c02_verify_all_default : forall algorithms, g_verify_all (jwe_sel algorithms None) = true.
+Proof. exact verify_all_default. Qed.
+
+Theorem c02_verify_all_algorithms : forall a l reg, g_verify_all (jwe_sel (Some (a :: l)) reg) = true.
+Proof. exact verify_all_algorithms. Qed.
+
+Theorem c02_verify_all_false_only_by_caller : forall algorithms reg,
+  g_verify_all (jwe_sel algorithms reg) = false -> exists r, reg = Some r /\ g_verify_all r = false.
+Proof. exact verify_all_false_only_by_caller. Qed.
+
+Theorem c02_default_all_recipients_yield : forall O algorithms o m,
+  perform_decrypt O (jwe_sel algorithms None) o = Ok m ->
+  exists e cek, forall r, In r (j_recips o) -> yields O (jwe_sel algorithms None) e o r cek.
+Proof. exact sel_all_recipients_yield. Qed.
+
 (* non-vacuity on recorded runs: kid "right" in the per-recipient header wins over kid "decoy" in the shared
    unprotected header and selects the second member of the KeySet; use=sig and an unknown kid are refused *)
 Example c02_keys_nonvacuous :
@@ -287,6 +307,10 @@ Print Assumptions c02_sound_keys_json.
 Print Assumptions c02_key_by_kid.
 Print Assumptions c02_kid_unknown.
 Print Assumptions c02_use_checked.
+Print Assumptions c02_verify_all_default.
+Print Assumptions c02_verify_all_algorithms.
+Print Assumptions c02_verify_all_false_only_by_caller.
+Print Assumptions c02_default_all_recipients_yield.
 Print Assumptions c02_aad_is_received_compact.
 Print Assumptions c02_aad_is_received.
 Print Assumptions c02_cbc_tag_first.
